@@ -5,7 +5,7 @@
    the round-trip theorems alone) and BinFormat.v (binary, over byte lists, no oracle).
 
    The readers of /repo are modelled by mm_checked / read_crs true (all preconditions of the
-   fix: commits f41c045, 60b70e9, d94af74, 436f08e).  These are the models the correspondence
+   fix: commits a04dd9c, 7c1d34c, 3c662b9, 6a14a6a).  These are the models the correspondence
    harness (tools/props/C19.py, default flags "1111") runs against the real code, and the
    MAIN SAFETY THEOREMS are about them:
        C19_mm_read_checked_safe, C19_mm_readd_checked_safe, C19_bin_read_checked_safe
@@ -348,7 +348,7 @@ Theorem C19_mm_read_current_no_oob_default_range :
 Proof. exact mm_read_current_no_oob_default_range. Qed.
 Print Assumptions C19_mm_read_current_no_oob_default_range.
 
-(* HISTORICAL, reader before f41c045 (mm_current): damaged file (column digit 2 -> 9) is accepted, result not wf *)
+(* HISTORICAL, reader before a04dd9c (mm_current): damaged file (column digit 2 -> 9) is accepted, result not wf *)
 Theorem C19_mm_read_safe_refuted :
   exists (f : list line) (A : crs string),
            mm_read string 8
@@ -361,7 +361,7 @@ Theorem C19_mm_read_safe_refuted :
 Proof. exact mm_read_safe_refuted. Qed.
 Print Assumptions C19_mm_read_safe_refuted.
 
-(* HISTORICAL, reader before f41c045 / 436f08e (mm_current): row index 9 > nrows: entry silently dropped *)
+(* HISTORICAL, reader before a04dd9c / 6a14a6a (mm_current): row index 9 > nrows: entry silently dropped *)
 Theorem C19_mm_read_row_dropped_refuted :
   mm_read string 8 vread_tok mm_current KReal mm_damaged_row (-1) (-1) =
          Ok
@@ -384,21 +384,21 @@ Theorem C19_mm_read_checked_rejects_damaged :
 Proof. exact mm_read_checked_rejects_damaged. Qed.
 Print Assumptions C19_mm_read_checked_rejects_damaged.
 
-(* HISTORICAL, reader before 60b70e9 / d94af74 (checks off): row_beg = 4 > n = 3: ptr.back() of an empty vector *)
+(* HISTORICAL, reader before 7c1d34c / 3c662b9 (checks off): row_beg = 4 > n = 3: ptr.back() of an empty vector *)
 Theorem C19_mm_read_range_oob_refuted :
   exists f : list line,
            mm_read string 8 vread_tok mm_current KReal f 4 (-1) = Error EOOB.
 Proof. exact mm_read_range_oob_refuted. Qed.
 Print Assumptions C19_mm_read_range_oob_refuted.
 
-(* HISTORICAL, reader before 60b70e9 / d94af74 (checks off): size line '-1 1 0', default range *)
+(* HISTORICAL, reader before 7c1d34c / 3c662b9 (checks off): size line '-1 1 0', default range *)
 Theorem C19_mm_read_negative_n_oob_refuted :
   exists f : list line,
            mm_read string 8 vread_tok mm_current KReal f (-1) (-1) = Error EOOB.
 Proof. exact mm_read_negative_n_oob_refuted. Qed.
 Print Assumptions C19_mm_read_negative_n_oob_refuted.
 
-(* HISTORICAL, dense reader before 60b70e9 (mm_current): size line '-3 -2' accepted, 6 never-written values *)
+(* HISTORICAL, dense reader before 7c1d34c (mm_current): size line '-3 -2' accepted, 6 never-written values *)
 Theorem C19_mm_readd_safe_refuted :
   exists (f : list line) (d : dense string),
            mm_readd string 8 vread_tok mm_current KReal f (-1) (-1) = Ok d /\
@@ -408,7 +408,7 @@ Theorem C19_mm_readd_safe_refuted :
 Proof. exact mm_readd_safe_refuted. Qed.
 Print Assumptions C19_mm_readd_safe_refuted.
 
-(* HISTORICAL, reader before f41c045 / 436f08e (mm_current): data beyond the announced count is ignored; the reader as it is throws *)
+(* HISTORICAL, reader before a04dd9c / 6a14a6a (mm_current): data beyond the announced count is ignored; the reader as it is throws *)
 Theorem C19_mm_trailing_example :
   mm_read string 8 vread_tok mm_current KReal mm_trailing (-1) (-1) =
          Ok
@@ -588,20 +588,20 @@ Theorem C19_bin_read_current_agrees_on_valid :
 Proof. exact bin_read_current_wf_input_safe. Qed.
 Print Assumptions C19_bin_read_current_agrees_on_valid.
 
-(* HISTORICAL, read_crs before d94af74 (checked = false): ptr = [0;1000;2;3] => sort_row out of bounds (ASan: heap-buffer-overflow) *)
+(* HISTORICAL, read_crs before 3c662b9 (checked = false): ptr = [0;1000;2;3] => sort_row out of bounds (ASan: heap-buffer-overflow) *)
 Theorem C19_bin_read_safe_refuted :
   exists f : list Z, read_crs false false 8 f (-1) (-1) = Error EOOB.
 Proof. exact bin_read_safe_refuted. Qed.
 Print Assumptions C19_bin_read_safe_refuted.
 
-(* HISTORICAL, reader before 60b70e9 / d94af74 (checks off): ptr = [0;2;1;3] returned as is *)
+(* HISTORICAL, reader before 7c1d34c / 3c662b9 (checks off): ptr = [0;2;1;3] returned as is *)
 Theorem C19_bin_read_invalid_refuted :
   exists (f : list Z) (A : flat),
            read_crs false false 8 f (-1) (-1) = Ok A /\ wf_flat A = false.
 Proof. exact bin_read_invalid_refuted. Qed.
 Print Assumptions C19_bin_read_invalid_refuted.
 
-(* HISTORICAL, reader before 60b70e9 / d94af74 (checks off): n = 1, row_beg = 2: ptr.front() of an empty vector *)
+(* HISTORICAL, reader before 7c1d34c / 3c662b9 (checks off): n = 1, row_beg = 2: ptr.front() of an empty vector *)
 Theorem C19_bin_read_range_oob_refuted :
   exists f : list Z,
            read_crs false true 8 f 2 (-1) = Error EOOB /\
